@@ -324,6 +324,8 @@ class Executor:
             return Val(t, f(v.recv.z))
         if isinstance(t, Opaque) and t.nm == "Any":
             return self.fresh_of_type(t, st, "any")
+        if isinstance(t, Opaque) and self.lenient and isinstance(v, (View, tuple)):
+            return self.fresh_of_type(t, st, "opq")      # a built collection handed on as an opaque value
         if isinstance(v, PyConst) and isinstance(v.v, str) and t == Str:
             return Val(Str, z3.StringVal(v.v))
         raise Untranslatable(f"cannot coerce {v!r} to {t}")
@@ -644,6 +646,11 @@ class Executor:
                 c = self.reg.find_method(t.cls, "__iter__")
                 if c is not None and c.yields:
                     return self.call_generator_view(c, [v], {}, st, None)
+            if isinstance(t, Obj) and self.lenient:
+                n = fresh("nit", z3.IntSort())
+                st.assume(n >= 0)
+                self.assume_log(f"lenient: iteration over a {t.cls} object yields untracked values")
+                return View(n, lambda i: Unknown("element of an untracked iterable"), None)
         raise Untranslatable(f"not iterable: {v!r}")
 
     def entails(self, st, z, ms=300):
@@ -887,6 +894,13 @@ class Executor:
                 base = v[1] if v[0] != "module" else v[1].split(".")[-1]
                 return PyConst(("dotted", f"{base}.{name}"))
             return PyConst(("attr", obj.v, name))
+        if isinstance(obj, FuncRef) and obj.qual in self.reg.enums and name in self.reg.enums[obj.qual][0]:
+            members, et = self.reg.enums[obj.qual]
+            mk = z3.Function(f"enum_{et.nm}", z3.IntSort(), et.sort())
+            od = z3.Function(f"enum_ord_{et.nm}", et.sort(), z3.IntSort())
+            k = members.index(name)
+            st.assume(od(mk(k)) == k)           # members are pairwise distinct
+            return Val(et, mk(k))
         if isinstance(obj, FuncRef):
             return FuncRef(obj.qual + "." + name)
         if self.lenient and isinstance(obj, BoundMethod):
